@@ -56,6 +56,11 @@ C = {
    "operation of the result writer is classified (absent / earlier complete result / complete current result, query file in step; append: prefix preserved, header once), "
    "and chosen points really kill the process (goroutines exit at their next yield, completed syscalls persist) before the next process starts on the leftovers.",
    "deterministic simulation: kill-point enumeration at file-system yields within seeded process histories, file-state classifier"),
+ "C05": ("exploration", "5 C05",
+   "Seeded generation of records, abstract queries (rendered through the documented grammar) and partitions over servers x files x serialisation intervals (reader stalls on the fake "
+   "clock, map-order decisions, network interleaving); the final CSV is compared with an independent evaluator of the abstract query (where -> set -> group -> aggregate -> order -> limit), "
+   "tolerating only float rounding, last/len choice and ties.",
+   "deterministic simulation: partition x interval-history x merge-order search, independent reference evaluator"),
 }
 
 checks = []
